@@ -10,6 +10,8 @@
 (*   MC_TtyLock_big_dump.cfg  the big model with the edge dump, used with -simulate            *)
 (*   MC_TtyLock_big.cfg    thorough: 3 callers + starter, child with 2 threads (one starts a    *)
 (*                         grandchild), grandchild with 1 thread, nesting depth 2               *)
+(*   MC_TtyLock_n_dump.cfg thread creation as an action + threads invisible to `threading` + "one thread so far"  *)
+(*   MC_TtyLock_var_n.cfg  the n model with Variant from the environment ("fastpath")                       *)
 (*   MC_TtyLock_var.cfg    seeded regressions of the model (Variant from the environment)       *)
 EXTENDS TtyLock, Json, IOUtils
 
@@ -49,9 +51,22 @@ SProg == << <<Call(1)>>, <<Start(1), Start(2)>>, <<Call(1)>>, <<Call(1)>> >>
 GProcOf == <<0, 0, 1, 2>>
 GProg == << <<Call(1)>>, <<Start(1)>>, <<Start(2), Call(1)>>, <<Call(1)>> >>
 
+\* thread population: in every configuration above all threads exist from the start and come from `threading`
+NoCreator == [t \in 1..NT |-> 0]
+AllThreading == [t \in 1..NT |-> "threading"]
+
+\* newcomer model (n): the root starts with ONE thread known to `threading` (1: call, then starts child 1); thread 2 is
+\* created by thread 1 at any moment (inside its call, inside the start wrapper, ...); thread 3 exists from the start but
+\* was not created through `threading` (invisible to threading.active_count()); 4 = the child's main thread
+NProcOf == <<0, 0, 0, 1>>
+NProg == << <<Call(1), Start(1)>>, <<Call(1)>>, <<Call(1)>>, <<Call(1)>> >>
+NCreator == <<0, 1, 0, 0>>
+NKind == <<"threading", "threading", "raw", "threading">>
+
 EnvVariant == IF "VARIANT" \in DOMAIN IOEnv THEN IOEnv.VARIANT ELSE "code"
 
-ASSUME PrintT(<<"CONFIG", ToJson([np |-> NP, nt |-> NT, procOf |-> ProcOf, prog |-> Prog, copyStep |-> CopyStep])>>)
+ASSUME PrintT(<<"CONFIG", ToJson([np |-> NP, nt |-> NT, procOf |-> ProcOf, prog |-> Prog, copyStep |-> CopyStep,
+                                     creator |-> Creator, kind |-> Kind])>>)
 
 Dump ==
   PrintT(<<"EDGE", ToJson([from |-> View, to |-> View',
